@@ -179,11 +179,13 @@ for h in items:
         rec["is_err"] = "%s: %s" % (type(e).__name__, e)
     try:
         rec["env"] = dataclasses.asdict(mod.decode_envelope(b))
+        json.dumps(rec["env"], allow_nan=False)
     except Exception as e:
+        rec.pop("env", None)
         rec["err"] = "%s: %s" % (type(e).__name__, e)
     out.append(rec)
 with open(outp, "w") as f:
-    json.dump({"route": route, "file": mod.__file__, "version": sys.version.split()[0], "results": out}, f, ensure_ascii=True)
+    json.dump({"route": route, "file": mod.__file__, "version": sys.version.split()[0], "results": out}, f, ensure_ascii=True, allow_nan=False)
 `
 
 const c29NodeDriver = `import { readFileSync, writeFileSync } from 'node:fs';
@@ -247,6 +249,7 @@ func c29RunPython(dir, inputs string, n int) c29LangRun {
 	if err != nil {
 		return c29LangRun{Why: "python3 not found on PATH"}
 	}
+	py = c29RealPython(py)
 	src := filepath.Join(c29Repo(), "lfs-client-sdk", "python")
 	if _, err := os.Stat(filepath.Join(src, "lfs_sdk", "envelope.py")); err != nil {
 		return c29LangRun{Why: "lfs_sdk/envelope.py not found: " + err.Error()}
@@ -264,6 +267,28 @@ func c29RunPython(dir, inputs string, n int) c29LangRun {
 		return c29LangRun{Why: "python output unreadable: " + err.Error()}
 	}
 	return c29LangRun{Results: res, Meta: meta}
+}
+
+// c29RealPython skips a pyenv shim (a shell script that costs seconds on a busy machine) when the
+// interpreter it would select can be named directly; otherwise the PATH entry is used as is.
+func c29RealPython(p string) string {
+	if v := os.Getenv("VERIF_PYTHON"); v != "" {
+		return v
+	}
+	if filepath.Base(filepath.Dir(p)) != "shims" {
+		return p
+	}
+	root := filepath.Dir(filepath.Dir(p))
+	b, err := os.ReadFile(filepath.Join(root, "version"))
+	if err != nil || os.Getenv("PYENV_VERSION") != "" {
+		return p
+	}
+	ver := strings.TrimSpace(strings.SplitN(string(b), "\n", 2)[0])
+	cand := filepath.Join(root, "versions", ver, "bin", "python3")
+	if st, err := os.Stat(cand); err == nil && !st.IsDir() {
+		return cand
+	}
+	return p
 }
 
 func c29Tail(s string) string {
